@@ -97,6 +97,10 @@ func parseRabinString(r io.Reader, chunker string) (Splitter, error) {
 			return nil, err
 		} else if int(float32(size)*1.5) > ChunkSizeLimit { // FIXME - this will be addressed in a subsequent PR
 			return nil, ErrSizeMax
+		} else if size/3 < 16 {
+			// NewRabin derives min = avg/3 from the average; below 16 the
+			// underlying chunker ignores its bounds (see the explicit form)
+			return nil, ErrRabinMin
 		}
 		return NewRabin(r, uint64(size)), nil
 	case 4:
